@@ -83,6 +83,16 @@ func evalC20(c *core.Ctx, e *eco.Eco, op string, args []string) []core.Violation
 		vs = append(vs, v)
 	}
 	mk := func(rule, got, want string) []core.Violation {
+		// the range's own bound versions together with the probes: is the upstream order itself cyclic here?
+		list := append([]string{}, args[1:]...)
+		for _, tok := range strings.FieldsFunc(rs, func(c rune) bool { return strings.ContainsRune(" ,|<>=!~^()[]@*", c) }) {
+			if v, err, pn := e.SafeNewVersion(tok); accepted(isNilVer(v), err, pn) {
+				list = append(list, tok)
+			}
+		}
+		if inheritedNonTransitive(e, uniq(list)) {
+			rule += ":inherited-from-reference"
+		}
 		return []core.Violation{{Eco: e.Name, Op: op, Args: args, Rule: rule, Got: got, Want: want}}
 	}
 	in := make([]bool, len(vs))
